@@ -1,4 +1,5 @@
 //! Channels of the line protocol (DESIGN Appendix B).
+pub mod dec;
 pub mod store;
 pub mod trav;
 
@@ -11,6 +12,7 @@ pub fn respond(line: &str) -> String {
         "store" => store::store(rest),
         "storef" => store::storef(rest),
         "trav" => trav::trav(rest),
+        "dec" => dec::dec(rest),
         _ => "bad-request".to_string(),
     }
 }
